@@ -314,11 +314,29 @@ def flat_ops(tr):
 # ---------------------------------------------------------------------------------------------------------
 # byte-vector construction traces
 # ---------------------------------------------------------------------------------------------------------
+def field_of_join(t):
+    """field(phi, n) - a field of a struct that is carried around a loop as a whole (e.g. `struct Transcript(Vec<u8>)`
+    appended to in a loop) - seen as the join of that field over the incoming struct values"""
+    n = 0
+    while is_t(t) and t.op == "field" and is_t(t.args[0]) and t.args[0].op == "phi" and n < 4:
+        from .sym import field as sym_field
+        ph, fn_ = t.args
+        key2 = tuple(ph.args[0]) + (("fld", fn_),)
+        inc = PHI.get(ph.args[0]) or {}
+        new = {p: sym_field(v, fn_) for p, v in inc.items()}
+        if PHI.get(key2) != new:
+            PHI[key2] = new
+        t = mk("phi", key2)
+        n += 1
+    return t
+
+
 def parts_of(t, _stack=()):
     """ordered parts of a Vec<u8> built by push/append: list of ('part', term) / ('repeat', [...]) / ('base', t)"""
     parts = []
     cur = t
     while True:
+        cur = field_of_join(cur)
         if cur.op == "append":
             parts.append(("part", cur.args[1]))
             cur = cur.args[0]
